@@ -28,6 +28,8 @@ META = {
                  "regenerated call graph) + hook-measured recursion depth vs model + crash/timeout search in child processes",
 }
 
+PRELUDE = "From Coq Require Import List NArith Bool.\nImport ListNotations.\n"
+
 THEOREMS = [("chunk_terminates", "theorem"), ("guard_needed_refuted", "refutation"), ("graph_guards_every_cycle", "table"),
             ("stack_frames_bounded", "theorem"), ("stack_unbounded_without_guard", "refutation"), ("pump_cost_linear", "theorem"),
             ("depth_eq_nesting", "theorem"), ("tree_height_unbounded_refuted", "refutation"), ("graph_example", "example")]
@@ -85,7 +87,7 @@ def correspondence(ck, binpath, n, limit):
             ck.tie_broken("the limit compiled into the parser (%s) differs from the translated LIMIT (%s)" % (c["limit"], limit), "")
             return
     failing = ck.coq_failing("corr", terms, ["EV.C03.Syntax", "EV.C02.Corr"], check_fn="EV.C02.Corr.check_case",
-                             case_type="EV.C02.Corr.case", per_shard=60, timeout=1800)
+                             case_type="EV.C02.Corr.case", per_shard=60, timeout=1800, prelude=PRELUDE)
     if failing is None:
         return
     for i in failing[:5]:
